@@ -15,7 +15,7 @@ from symx import Symx, Budget, render, lit_truth
 
 META = {
     'level': 'other',
-    'decides': 'the lookup order cache > preloaded bundle > database for accounts and code on every path, that a bundle hit never reaches the database, and the field-by-field conversion of a bundle account into a cache account',
+    'decides': 'the lookup order cache > preloaded bundle > database for accounts and code on every path, that a bundle hit never reaches the database, and the field-by-field conversion of a bundle account into a cache account; how StateBuilder::build composes cache, preloaded bundle, state-clear flag and the use_preloaded_bundle switch in its four configuration cases',
     'does_not_decide': 'equality of execution results and resulting bundles over histories',
     'explanation': 'Path enumeration of the two lookup functions with the map lookups kept symbolic; symbolic record of the conversion.',
 }
